@@ -137,7 +137,15 @@ var (
 // theServer: one fake server per process, listening on every loopback address
 func theServer() (*fakeMilvus, int) {
 	srvOnce.Do(func() {
-		lis, err := net.Listen("tcp4", "0.0.0.0:0")
+		// the ephemeral port range of a busy machine can be exhausted for a moment ("bind: address already in use"): try again
+		var lis net.Listener
+		var err error
+		for try := 0; try < 40; try++ {
+			if lis, err = net.Listen("tcp4", "0.0.0.0:0"); err == nil {
+				break
+			}
+			time.Sleep(250 * time.Millisecond)
+		}
 		if err != nil {
 			errListen = err
 			return
